@@ -366,6 +366,7 @@ class ModelFile:
             new_root.addnext(i)
 
         self.root = new_root
+        self.idcache_rebuild()
 
     def iterall_xt(
         self, xtypes: cabc.Container[str]
